@@ -69,6 +69,16 @@ func init() {
 						V: map[string]int{"reconnect": rc, "k": 1, "respcut": 1, "desc": 1}, S: map[string]string{"c1": "none", "c2": "none", "cut": c}})
 				}
 			}
+			// the link dies in the middle of a frame: the response that announces the channel, or the
+			// first value (the reader has accepted the message and fails while reading its body)
+			for _, c := range []string{"fin", "rst"} {
+				for _, fr := range []int{0, 1} {
+					for _, rc := range []int{0, 1} {
+						ps = append(ps, Param{Name: fmt.Sprintf("midcut-%s-f%d-rc%d", c, fr, rc), Bound: pair,
+							V: map[string]int{"reconnect": rc, "k": 1, "respcut": 1, "cutframe": fr, "cutmid": 1}, S: map[string]string{"c1": "none", "c2": "none", "cut": c}})
+					}
+				}
+			}
 			// three live subscriptions established together; the oldest ends first
 			ps = append(ps, Param{Name: "none-k3-sync", Bound: pair, V: map[string]int{"k": 3, "sync": 1}, S: map[string]string{"c1": "none", "c2": "none"}})
 			ps = append(ps, Param{Name: "close+none-rc0-k1-desc", Bound: single, V: map[string]int{"k": 1, "desc": 1}, S: map[string]string{"c1": "close", "c2": "none"}})
@@ -93,7 +103,11 @@ func termBody(s *vsched.Sched, p Param) {
 		return
 	}
 	if p.I("respcut") == 1 {
-		sw.w.Net.ArmFrame(0, vnet.FrameCut{Kind: faultKinds[p.Str("cut")], Dir: vnet.S2C, Frame: 0, Where: vnet.After})
+		fc := vnet.FrameCut{Kind: faultKinds[p.Str("cut")], Dir: vnet.S2C, Frame: p.I("cutframe"), Where: vnet.After}
+		if p.I("cutmid") == 1 {
+			fc.Where, fc.DataOnly = vnet.MidPayload, true
+		}
+		sw.w.Net.ArmFrame(0, fc)
 	}
 	if p.I("sync") == 1 {
 		sw.srv.syncK = k
